@@ -393,8 +393,12 @@ func (e *Engine) visitInstr(fr *frame, instr ssa.Instruction) (ret bool, jumped 
 	case *ssa.MakeSlice:
 		c := e.concretizeInt(fr.get(instr.Cap), "make cap")
 		l := e.concretizeInt(fr.get(instr.Len), "make len")
-		if l < 0 || c < l {
+		if l < 0 || c < l || c > 1<<47 {
+			// (more than 2^47 elements exceeds the address space: the runtime refuses)
 			e.rtPanic("makeslice: len out of range")
+		}
+		if c > 1<<24 {
+			panic(engineErr("make of %d elements is beyond what the engine allocates", c))
 		}
 		s := make([]Value, c)
 		tElt := instr.Type().Underlying().(*types.Slice).Elem()
